@@ -52,6 +52,13 @@ def parseOp (w : List String) : Option Op :=
   | ["stats"] => some .stats
   | ["exit"] => some .exit
   | ["spam", n] => do let n ← n.toNat?; pure (.spam n)
+  | ["adNew", a, "inSpan", v] => some (.adNew a .inSpan v)
+  | ["adNew", a, "stream", v] => some (.adNew a .stream v)
+  | ["adNew", a, "sink", v] => some (.adNew a .sink v)
+  | ["adNew", a, "enterOnPoll", n] => do let n ← strOfHex n; pure (.adNew a .enterOnPoll n)
+  | ["adPoll", a, call] => some (.adPoll a call)
+  | ["adEnd", a, res] => some (.adEnd a res)
+  | ["adDrop", a] => some (.adDrop a)
   | _ => none
 
 /-- canonical id text: `T<k>#<n>` for ids drawn by logical thread k, `0`, else `x<hex>` -/
